@@ -360,7 +360,7 @@ def realworld(ctx, work):
     ids = sorted(files_of_case)
     groups = []
     nev = 0
-    ng = min(NCPU, len(ids))
+    ng = min(4 if ctx.tier == "quick" else NCPU, len(ids))
     # split the one trace file by Case marker so that the groups validate in parallel
     chunks, cur = {}, None
     for line in open(trace):
@@ -486,8 +486,8 @@ def run_check(ctx):
     if not any(os.path.exists(t) and os.path.getsize(t) > 0 for t in tfiles):
         raise MachineryError("the H-idb hooks recorded nothing: is patches/c13-hooks.diff applied to the tree under test?")
     # a fixed stratified part of the batches (the replay comparison above is complete)
-    tfiles = tfiles[::3] if ctx.tier == "quick" else tfiles[::4]
-    ng = NCPU
+    tfiles = tfiles[::5] if ctx.tier == "quick" else tfiles[::4]
+    ng = NCPU // 2 if ctx.tier == "quick" else NCPU
     groups = []
     nev = 0
     for gi in range(ng):
